@@ -203,6 +203,23 @@ pub fn run(args: &[String]) -> i32 {
                 }
             }
         }
+        // 3b. splits by size: one item alone in a large file, behind a comment that puts its annotation at every offset
+        //     around the 8 KiB / 16 KiB / 64 KiB marks; the bytes must equal those of every other split
+        for boundary in [8192usize, 16384, 65536] {
+            for rel in -10i64..=1 {
+                for &lang in &split_langs {
+                    let its = items(lang);
+                    let word_at = (boundary as i64 + rel) as usize;
+                    let big = format!("//{}\n{}", "x".repeat(word_at - 2 - 3), its[1]);
+                    let small = [its[0].clone(), its[2].clone(), its[3].clone(), its[4].clone()].join("\n");
+                    let stems = [STEMS[0], STEMS[1]];
+                    let files = vec![(stems[0].to_string(), small), (stems[1].to_string(), big)];
+                    let mut schedule = e3::start_barrier(&stems);
+                    schedule.extend(stems.iter().map(|s| format!("send:{s}")));
+                    jobs.push(Job { class: format!("split|{}", lang.name()), files, schedule, expect_events: None, lang, multi: false, threads: 2, family: "splits-by-size" });
+                }
+            }
+        }
     }
     // 4. thread counts 1..16, free running (no forced schedule)
     for t in 1..=16usize {
